@@ -83,3 +83,51 @@ func RefClosure(roots []*ssa.Function, keep func(*ssa.Function) bool) []*ssa.Fun
 	}
 	return order
 }
+
+// IterPaths enumerates the simple paths that start at loop header h and end
+// either back at h (one full iteration; the path's last element is h again)
+// or at a block satisfying stop (typically a return block: the loop ran out
+// or the body left early). ok=false if more than max paths exist.
+func IterPaths(h *ssa.BasicBlock, stop func(*ssa.BasicBlock) bool, max int) (paths []Path, ok bool) {
+	ok = true
+	on := map[*ssa.BasicBlock]bool{}
+	var cur Path
+	var walk func(b *ssa.BasicBlock)
+	walk = func(b *ssa.BasicBlock) {
+		if !ok {
+			return
+		}
+		cur = append(cur, b)
+		on[b] = true
+		defer func() {
+			cur = cur[:len(cur)-1]
+			on[b] = false
+		}()
+		if b != h && stop(b) {
+			if len(paths) >= max {
+				ok = false
+				return
+			}
+			paths = append(paths, append(Path(nil), cur...))
+			return
+		}
+		for i, s := range b.Succs {
+			if (i == 1 && b.Succs[0] == s) || DeadEdge(b, i) {
+				continue
+			}
+			if s == h {
+				if len(paths) >= max {
+					ok = false
+					return
+				}
+				paths = append(paths, append(append(Path(nil), cur...), h))
+				continue
+			}
+			if !on[s] {
+				walk(s)
+			}
+		}
+	}
+	walk(h)
+	return
+}
